@@ -33,6 +33,10 @@ pub struct Fault {
     pub caught: bool,
     /// for Handle: do the handler's normal work (forwarding) before the fault
     pub after_work: bool,
+    /// the module starts with the opposite stereotype and switches to the one `caught` describes inside the very
+    /// callback that panics (synchronous callbacks only): the stereotype in force when the panic is raised counts
+    #[serde(default)]
+    pub flip: bool,
 }
 
 #[derive(Clone, Debug, Serialize, Deserialize)]
@@ -69,6 +73,11 @@ impl R {
             self.dead_flag.store(true, std::sync::atomic::Ordering::SeqCst);
             true
         } else {
+            if let Some(f) = &self.fault {
+                if f.flip {
+                    current().set_stereotyp(if f.caught { Stereotyp::SUBPROCESS } else { Stereotyp::HOST });
+                }
+            }
             panic!("injected fault in {what}");
         }
     }
@@ -193,7 +202,9 @@ fn run_ring(case: &Case, silent: bool) -> Result<RunOut, Failure> {
     let refs: Vec<ModuleRef> = (0..n).map(|i| sim.get(&ObjectPath::from(format!("r{i}"))).unwrap()).collect();
     for (i, f) in faults.iter().enumerate() {
         if let Some(f) = f {
-            refs[i].set_stereotyp(if f.caught { Stereotyp::SUBPROCESS } else { Stereotyp::HOST });
+            // a flipping module starts with the other stereotype (task faults cannot flip: kept as they are)
+            let initial = if f.flip && !matches!(f.place, Place::Task(_)) { !f.caught } else { f.caught };
+            refs[i].set_stereotyp(if initial { Stereotyp::SUBPROCESS } else { Stereotyp::HOST });
         }
     }
     let rt = Builder::seeded(23).quiet().max_itr(50_000).build(sim.freeze());
@@ -405,6 +416,9 @@ pub fn run_case(case: &Case) -> Result<(bool, Vec<&'static str>, bool), Failure>
     if faults.iter().flatten().any(|f| f.caught) && !triggered_cb.is_empty() {
         labels.push("catching-stereotype");
     }
+    if case.faults.iter().any(|f| f.flip && !matches!(f.place, Place::Task(_))) {
+        labels.push("stereotype-switched-in-the-panicking-callback");
+    }
     if alive_after_first >= 2 {
         labels.push(">=2-modules-alive-after-first-panic");
     }
@@ -455,11 +469,12 @@ impl Prop for C13 {
             1 => Just(Place::End),
             2 => (1u8..6).prop_map(Place::Task),
         ];
-        let fault = (0u8..6, place, any::<bool>(), any::<bool>()).prop_map(|(module, place, caught, after_work)| Fault {
+        let fault = (0u8..6, place, any::<bool>(), any::<bool>(), proptest::bool::weighted(0.25)).prop_map(|(module, place, caught, after_work, flip)| Fault {
             module,
             place,
             caught,
             after_work,
+            flip,
         });
         (
             2u8..=6,
@@ -494,7 +509,7 @@ impl Prop for C13 {
                 n: 2,
                 timers: vec![(0, 0, 0)],
                 ticks: vec![1, 0],
-                faults: vec![Fault { module: 0, place: Place::Handle(1), caught: false, after_work: false }],
+                faults: vec![Fault { module: 0, place: Place::Handle(1), caught: false, after_work: false, flip: false }],
             },
         )]
     }
